@@ -77,6 +77,16 @@ static void run_case( const std::vector<Toks>& ops, FILE* out )
             std::string d = unhex( t[1] );
             c.sec->append_data( d.data(), d.size() );
         }
+        else if ( op == "appself" && t.size() == 3 ) {
+            // append_data( get_data() + off, n ): the source lies in the section's own buffer
+            const char* d   = c.sec->get_data();
+            Elf_Xword   off = num( t[1] ), n = num( t[2] );
+            if ( !d || off + n > c.sec->get_size() ) {
+                fprintf( out, "bad-op\n" );
+                continue;
+            }
+            c.sec->append_data( d + off, (Elf_Word)n );
+        }
         else if ( op == "ins" && t.size() == 3 ) {
             std::string d = unhex( t[2] );
             c.sec->insert_data( num( t[1] ), d.data(), d.size() );
